@@ -50,7 +50,7 @@ LEVEL = {
     "C10": ("All 1-3 (4) atom expressions over 8 abbreviation atoms x 8 package tables x flag combinations, many-occurrence chains, shipped resolvers "
             "and all completion orders of a suspending resolver, against textual bracketed substitution + real parser.", "R6 (mc/ref/subst.py); I3"),
     "C11": ("Explicit-state BFS over histories of parse / resolve / evaluate / edit / flood operations on the real functions with canonical state "
-            "hashing; the invariant 'every parser result equals the cold-state snapshot' (incl. a 13-operand expression with operator runs) is evaluated in every state; "
+            "hashing; the invariant 'every parser result equals the cold-state snapshot' (incl. a 7-operand expression with operator runs) is evaluated in every state; "
             "edits include assignment to Token attributes, malformed siblings include the lower-case twin of a cached string.", "the cold-state snapshot "
             "taken through the public functions; whitespace-padded spellings give identical trees"),
     "C12": ("Stateless DFS over ALL completion orders (plus bounded early/batched completions) of the awaitables ahbicht gathers, on a virtual event "
